@@ -269,7 +269,7 @@ Fixpoint get_next (fuel : nat) (err : bool) (td : todo) (ex fl : list pend) (k :
               end
           else if err then do_unwind ((pend', idx, mark) :: rest) ex fl
           else match set with
-               | [] => Some (GPanic, k)                  (* unreachable!() *)
+               | [] => Some (GNext (o, tc) ((pend', idx, mark) :: rest) ex fl, k)   (* no options: handed to the work loop *)
                | c :: _ =>
                  Some (GNext (o, c) (((o, tc) :: own_check o p i ++ pend', 1, len ex) :: rest) ex fl, k)
                end
@@ -511,6 +511,7 @@ Definition process (o : obj) (tc : chk) (td : todo) (ex fl : list pend) (k' : na
     else
       let ex1 := (o, tc) :: ex in                                         (* state.examine; result = None *)
       match r_ty c with
+      | TDisj [] => (SCont td ex1 fl (Some EValue), k')                        (* a disjunct without options matches nothing *)
       | TDisj _ => (SCont (push_disjunct td (o, rep_chk c)) ex1 fl None, k')   (* a named or nested disjunct *)
       | _ => step_arm td ex1 fl k' o tc c
       end
